@@ -860,7 +860,10 @@ func (p *Processor) doHarvest(ph ProcessorHarvest) {
 	harvestType := ph.Type
 	id := ph.ID
 
-	if p.cfg.AppTimeout > 0 && app.Inactive(p.cfg.AppTimeout) {
+	// The final harvest at shutdown (blocking) delivers whatever is held,
+	// also for an application that has just gone past the inactivity
+	// threshold: removing it here would drop its data undelivered.
+	if !ph.Blocking && p.cfg.AppTimeout > 0 && app.Inactive(p.cfg.AppTimeout) {
 		log.Infof("removing %q with run id %q for lack of activity within %v",
 			app, id, p.cfg.AppTimeout)
 		numapps := len(p.apps)
